@@ -96,6 +96,32 @@ class Ctx:
         return self.tier == "quick"
 
 
+def call_guarded(fn: Callable[..., Outcome], case: Any, *more: Any) -> Outcome:
+    """fn(case, *more), except that an exception which escapes from zorg's OWN code while the
+    check drives it with an input of the property's domain is behaviour of the code under test,
+    not a flaw of the harness: it comes back as a violating Outcome (which the runner still has
+    to reproduce).  Anything raised by the check's own code stays an exception."""
+    try:
+        return fn(case, *more)
+    except H.HarnessError:
+        raise
+    except Exception as e:  # noqa: BLE001
+        import traceback as _tb
+
+        frames = _tb.extract_tb(e.__traceback__)
+        owner = next((f for f in reversed(frames)
+                      if f.filename.startswith(("/verif/", "/repo/src/"))), None)
+        if owner is None or not owner.filename.startswith("/repo/src/"):
+            raise
+        out = Outcome()
+        out.ok = False
+        out.sig = f"exception-in-zorg:{type(e).__name__}@{owner.filename.rsplit('/', 1)[-1]}:{owner.name}"
+        out.detail = {"case": jsonable(case), "error": f"{type(e).__name__}: {e}",
+                      "traceback_tail": [f"{f.filename}:{f.lineno} {f.name}" for f in frames[-6:]]}
+        out.obs = H.digest(out.sig)
+        return out
+
+
 def explore(
     ctx: Ctx,
     cases: Sequence[Any],
@@ -121,29 +147,7 @@ def explore(
             init()
 
     def work(i: int, case: Any) -> Outcome:
-        try:
-            return run_case(case)
-        except H.HarnessError:
-            raise
-        except Exception as e:  # noqa: BLE001
-            # An exception that escapes from zorg's own code while the check drives it with an
-            # input of the property's domain is behaviour of the code under test, not a flaw of
-            # the harness: it is reported as a violation (the runner still has to reproduce it).
-            # Anything raised by the check's own code stays a harness error.
-            import traceback as _tb
-
-            frames = _tb.extract_tb(e.__traceback__)
-            owner = next((f for f in reversed(frames)
-                          if f.filename.startswith(("/verif/", "/repo/src/"))), None)
-            if owner is None or not owner.filename.startswith("/repo/src/"):
-                raise
-            out = Outcome()
-            out.ok = False
-            out.sig = f"exception-in-zorg:{type(e).__name__}@{owner.filename.rsplit('/', 1)[-1]}:{owner.name}"
-            out.detail = {"case": jsonable(case), "error": f"{type(e).__name__}: {e}",
-                          "traceback_tail": [f"{f.filename}:{f.lineno} {f.name}" for f in frames[-6:]]}
-            out.obs = H.digest(out.sig)
-            return out
+        return call_guarded(run_case, case)
 
     def fold(acc: Report, i: int, case: Any, out: Outcome) -> None:
         acc.evaluations += out.n_evals
@@ -171,7 +175,7 @@ def explore(
             if len(acc.samples) < 2 and sample is not None and i % 7 == 0:
                 acc.samples.append(sample(case))
             if twice_every and i % twice_every == 0:
-                again = run_case(case)
+                again = call_guarded(run_case, case)
                 acc.replayed_twice += 1
                 if again.ok != out.ok:
                     # the same case passed, then failed, in one process: either state the
@@ -224,9 +228,9 @@ def run_history(v: dict, idxs: list, *, timeout: float = 14400.0):
         init()
         last = None
         for j in idxs:
-            last = run_case(cases[j])
+            last = call_guarded(run_case, cases[j])
             if last.ok and twice_every and j % twice_every == 0 and (j != idxs[-1] or v.get("twice")):
-                last = run_case(cases[j])
+                last = call_guarded(run_case, cases[j])
         return (last.ok, last.sig, jsonable(last.detail))
 
     r = H.run_child(go, timeout=timeout, capture=True)
